@@ -161,6 +161,34 @@ def poly_eval(coeffs, x):
     return v
 
 
+
+def fd_compare(fn, d, x, h, span):
+    """compare the claimed derivative `d` of `fn` at `x` with 4th-order central differences.  Several step sizes are
+    tried; the numerical derivative counts as converged when two consecutive step sizes agree to 1e-7 (relative to
+    the scale of the values).  Returns (status, fd) with status in ok / mismatch / not-converged."""
+    def fdiff(hh):
+        return (-float(fn(x + 2 * hh)) + 8 * float(fn(x + hh)) - 8 * float(fn(x - hh)) + float(fn(x - 2 * hh))) / (12 * hh)
+    last = None
+    for hh in (h, h / 2, h / 4, 2 * h):
+        try:
+            fd1, fd = fdiff(hh), fdiff(hh / 2)
+        except Exception:
+            return "not-converged", float("nan")
+        sc = max(1.0, abs(fd), max(abs(float(fn(x + t))) for t in (-2 * hh, 0, 2 * hh)) / span)
+        last = fd
+        if abs(fd1 - fd) <= 1e-7 * sc:
+            return ("ok" if abs(d - fd) <= 1e-6 * sc else "mismatch"), fd
+    return "not-converged", last
+
+
+def notaknot_knots(p, level, a, b):
+    """knot vector of `GlobalBSplineGrid.compute_1D_quad_weights` / `BSplineGrid1D` for a complete level"""
+    h = (b - a) / 2 ** level
+    if level < math.log2(p + 1):
+        return [a + i * h for i in range(2 ** level + 1)]
+    return [a + i * h for i in range(-p, 2 ** level + p + 1)
+            if i <= 0 or (p + 1) / 2 <= i <= 2 ** level - (p + 1) / 2 or i >= 2 ** level]
+
 # ---------------------------------------------------------------------------------------------- basis objects
 def build_basis(case):
     from sparseSpACE import BasisFunctions as BF
@@ -174,6 +202,11 @@ def build_basis(case):
         return BF.LagrangeBasisRestrictedModified(p, i, kn, float(kn[0]), float(kn[-1]), case["level"])
     if cls == "BSpline":
         return BF.BSpline(p, i, kn)
+    if cls == "HierarchicalNotAKnotBSpline":
+        return BF.HierarchicalNotAKnotBSpline(p, i, case["level"], kn)
+    if cls == "HierarchicalNotAKnotBSplineModified":
+        a, b = [float(Fraction(t)) for t in case["dom"]]
+        return BF.HierarchicalNotAKnotBSplineModified(p, i, case["level"], kn, a, b)
     raise ValueError(cls)
 
 
@@ -184,11 +217,29 @@ def gen_basis_case(r):
         cls = "LagrangeBasis"
     elif x < 0.6:
         cls = "LagrangeBasisRestricted"
-    elif x < 0.72:
+    elif x < 0.68:
         cls = "LagrangeBasisRestrictedModified"
-    else:
+    elif x < 0.80:
         cls = "BSpline"
-    if cls == "BSpline":
+    elif x < 0.93:
+        cls = "HierarchicalNotAKnotBSpline"
+    else:
+        cls = "HierarchicalNotAKnotBSplineModified"
+    dom = None
+    if cls.startswith("Hierarchical"):
+        # what the B-spline grids build on a complete level: not-a-knot knot vectors (NON-uniform for p >= 3 at
+        # levels >= log2(p+1): the knots next to the boundary are removed)
+        p = r.choice([1, 3, 3, 3, 5, 5, 7])
+        level = r.choice([1, 2, 3, 3, 4, 4, 5]) if cls.endswith("Spline") else r.choice([2, 3, 3, 4, 4, 5])
+        a = r.choice([0, 0, -1, -3])
+        b = a + r.choice([1, 1, 2, 8])
+        knots = notaknot_knots(p, level, a, b)
+        if cls.endswith("Modified"):
+            index = r.choice([1, 1, 2 ** level - 1, 2 ** level - 1, r.randrange(1, 2 ** level, 2)])
+        else:
+            index = r.choice([1, 2 ** level - 1, r.randrange(1, 2 ** level, 2), r.randrange(1, 2 ** level, 2)])
+        dom = [a, b]
+    elif cls == "BSpline":
         p = r.choice([0, 1, 1, 2, 3, 3, 5])
         n = p + 2 + r.randint(0, 3)
         lo = r.choice([-1, 0, 0])
@@ -208,6 +259,9 @@ def gen_basis_case(r):
         p = n - 1
         index = r.randrange(n)
     case = {"kind": "basis", "cls": cls, "p": p, "knots": [fs(k) for k in knots], "index": index}
+    if dom is not None:
+        case["level"] = level
+        case["dom"] = [fs(dom[0]), fs(dom[1])]
     if cls == "LagrangeBasisRestrictedModified":
         case["level"] = r.choice([1, 2]) if len(knots) == 3 else r.choice([2, 3])
     span = (knots[-1] - knots[0]) or 1.0
@@ -215,13 +269,21 @@ def gen_basis_case(r):
     xs = set(knots)
     for _ in range(6):
         xs.add(dy(r, knots[0] - 0.25, knots[-1] + 0.25, 64))
+    if dom is not None:
+        xs = set(k for k in knots if dom[0] <= k <= dom[1])
+        for _ in range(8):
+            xs.add(dy(r, dom[0], dom[1], 256))
     case["xs"] = [fs(x) for x in sorted(xs)]
     # a rational quadrature rule for the exact comparison of get_integral, and an interval
     m = r.randint(1, 3)
     case["qc"] = [fs(dy(r, -1, 1, 8)) for _ in range(m)]
     case["qw"] = [fs(dy(r, 0, 2, 8)) for _ in range(m)]
-    a = dy(r, knots[0] - 0.25, knots[-1], 16)
-    b = dy(r, a, knots[-1] + 0.25, 16)
+    if dom is not None:
+        a = dy(r, dom[0], dom[1], 16)
+        b = dy(r, a, dom[1], 16)
+    else:
+        a = dy(r, knots[0] - 0.25, knots[-1], 16)
+        b = dy(r, a, knots[-1] + 0.25, 16)
     case["ab"] = [fs(a), fs(b)]
     return case
 
@@ -269,12 +331,17 @@ def run_basis_case(ctx, drv, case):
         a, bb = [float(Fraction(t)) for t in case["ab"]]
         qc = np.array([float(Fraction(t)) for t in case["qc"]])
         qw = np.array([float(Fraction(t)) for t in case["qw"]])
+        spanwise_lagrange = case["cls"].startswith("Hierarchical") and spec.startswith("L:")
         try:
             I = float(b.get_integral(a, bb, qc, qw))
+            if spanwise_lagrange:
+                raise StopIteration   # knot-span-wise rule on a LagrangeBasis: not the model's `lagIntegral`; oracle below
             m = drv.ask("int %s %s %s %s %s" % (spec, fs(a), fs(bb), vec(qc), vec(qw)))
             if m == "bad-op" or not near(Fraction(m), I, scale):
                 ctx.corr_break("C10/basis-integral-rule", case, {"impl": I, "model": m})
                 ok = False
+        except StopIteration:
+            pass
         except Exception as e:
             ctx.violation("basis-integral", dict(tags, exc=exc_kind(e), interval="rule"), case, {"exception": str(e)[:200]})
             ok = False
@@ -295,16 +362,26 @@ def run_basis_case(ctx, drv, case):
             elif abs(v) > 1e-9:
                 ctx.violation("basis-cardinal", tags, case, {"knot": k, "value": v, "expected": 0})
                 ok = False
-    # ---- oracle: derivative vs 4th-order central differences away from the break points
+    # ---- oracle: derivative vs 4th-order central differences away from the break points; a numerical derivative
+    # that does not converge is itself a failure of the derivative clause (never observed on the unchanged tree)
     bps = breakpoints(b)
     lo, hi = knots[0], knots[-1]
+    if "dom" in case:
+        lo, hi = [float(Fraction(t)) for t in case["dom"]]
     span = (hi - lo) or 1.0
-    h = span * 2e-4
+    gaps = [v - u for u, v in zip(bps, bps[1:]) if v - u > 0]
+    h = min([span] + gaps) * 2e-3 if len(bps) > 1 else span * 2e-4
+    h = max(h, span * 1e-5)
     r = random.Random(case["index"] * 7919 + len(knots))
     worst = None
-    for _ in range(8):
+    has2 = hasattr(b, "get_second_derivative")
+    for _ in range(10):
         x = lo - 0.05 * span + r.random() * 1.1 * span
-        if min(abs(x - k) for k in bps) < 4 * h:
+        if "dom" in case:
+            x = lo + r.random() * span
+            if not (lo + 8 * h < x < hi - 8 * h):
+                continue
+        if min(abs(x - k) for k in bps) < 8 * h:
             continue
         try:
             d = float(b.get_first_derivative(x))
@@ -312,15 +389,29 @@ def run_basis_case(ctx, drv, case):
             ctx.violation("basis-derivative", dict(tags, exc=exc_kind(e)), case, {"x": x, "exception": str(e)[:200]})
             ok = False
             break
-        def fdiff(hh):
-            return (-float(b(x + 2 * hh)) + 8 * float(b(x + hh)) - 8 * float(b(x - hh)) + float(b(x - 2 * hh))) / (12 * hh)
-        fd1, fd = fdiff(h), fdiff(h / 2)
-        sc = max(1.0, abs(fd), max(abs(float(b(x + t))) for t in (-2 * h, 0, 2 * h)) / span)
-        if abs(fd1 - fd) > 1e-7 * sc:
-            ctx.count("fd_unreliable_skipped")      # the numerical derivative itself is not converged here
-            continue
-        if abs(d - fd) > 1e-6 * sc and worst is None:
+        st, fd = fd_compare(b, d, x, h, span)
+        ctx.count("fd_points_checked")
+        if st == "not-converged":
+            ctx.violation("basis-derivative", dict(tags, kind="finite-differences-do-not-converge"), case,
+                          {"x": x, "get_first_derivative": d, "last_finite_difference": fd})
+            ok = False
+            break
+        if st == "mismatch" and worst is None:
             worst = {"x": x, "get_first_derivative": d, "finite_difference": fd}
+        # second derivative (exposed by every class) vs finite differences of the first derivative
+        if has2 and not case["cls"] == "LagrangeBasisRestrictedModified":
+            try:
+                d2 = float(b.get_second_derivative(x))
+                st2, fd2 = fd_compare(b.get_first_derivative, d2, x, h, span)
+            except Exception as e:
+                ctx.violation("basis-second-derivative", dict(tags, exc=exc_kind(e)), case, {"x": x, "exception": str(e)[:200]})
+                ok = False
+                break
+            if st2 != "ok":
+                ctx.violation("basis-second-derivative", dict(tags, kind=st2), case,
+                              {"x": x, "get_second_derivative": d2, "finite_difference_of_first_derivative": fd2})
+                ok = False
+                break
     if worst is not None:
         ctx.violation("basis-derivative", tags, case, worst)
         ok = False
@@ -583,6 +674,80 @@ def run_grid_case(ctx, drv, case):
                            "degrees": case["degrees"], "points_per_dim": num_points})
             ok = False
         ctx.count("poly_within" if within else "poly_literal_only")
+    # ---- the basis objects the grid built: first derivative vs finite differences and vs the model
+    if n_nodes:
+        rr = random.Random(case["tseed"] ^ 0x77)
+        for _ in range(3):
+            d = rr.randrange(dim)
+            j = rr.randrange(num_points[d])
+            bobj = g.get_basis(d, j)
+            if not hasattr(bobj, "get_first_derivative"):
+                continue
+            lo_d, hi_d = float(start[d]), float(end[d])
+            bps = [k for k in breakpoints(bobj)] + [lo_d, hi_d]
+            span = hi_d - lo_d
+            inside = sorted(set(k for k in bps if lo_d <= k <= hi_d))
+            gaps = [v - u for u, v in zip(inside, inside[1:]) if v - u > 0]
+            if not gaps:
+                continue
+            hh = min(gaps) * 2e-3
+            x = lo_d + rr.random() * span
+            if min(abs(x - k) for k in bps) < 8 * hh:
+                continue
+            btags = {"cls": type(bobj).__name__, "family": fam, "p": case["p"]}
+            try:
+                dv = float(bobj.get_first_derivative(x))
+                st, fd = fd_compare(bobj, dv, x, hh, span)
+            except Exception as e:
+                ctx.violation("basis-derivative", dict(btags, exc=exc_kind(e)), case, {"dim": d, "basis": j, "x": x, "exception": str(e)[:200]})
+                ok = False
+                continue
+            ctx.count("grid_basis_derivative_checked")
+            if st != "ok":
+                ctx.violation("basis-derivative", dict(btags, kind=st) if st != "mismatch" else btags, case,
+                              {"dim": d, "basis": j, "x": x, "get_first_derivative": dv, "finite_difference": fd})
+                ok = False
+            sp = spec_of(bobj)
+            if sp is not None:
+                xq = round(x * 1024) / 1024
+                mv = drv.ask("der %s %s" % (sp, fs(xq)))
+                try:
+                    di = float(bobj.get_first_derivative(xq))
+                    if mv == "bad-op" or not near(Fraction(mv), di, max(1.0, abs(di))):
+                        ctx.corr_break("C10/grid-basis-derivative", case, {"dim": d, "basis": j, "x": xq, "impl": di, "model": mv})
+                        ok = False
+                except Exception as e:
+                    ctx.violation("basis-derivative", dict(btags, exc=exc_kind(e)), case, {"dim": d, "basis": j, "x": xq, "exception": str(e)[:200]})
+                    ok = False
+    # ---- modified B-spline basis (the in-library consumer of the B-spline derivatives): with the boundary functions
+    # extrapolated through the second derivative the basis is complete for linear functions (p = 1, 3; for p >= 5 the
+    # construction of the unchanged code does not achieve this -- counted, not judged)
+    if case["modified"] and kind == "bspline" and n_nodes and offpts:
+        lev_lists = ([list(ls) for ls in case["levels"]] if is_global else [full_levels(l) for l in lv])
+        if all(complete_level(ls) >= 2 for ls in lev_lists):
+            rl = random.Random(case["tseed"] ^ 0x1f3)
+            c0 = rl.randint(-8, 8) / 4
+            cs = [rl.choice([-2, -1, 1, 2, 3]) / 2 for _ in range(dim)]
+            lin = lambda c: [c0 + sum(cs[d] * c[d] for d in range(dim))]
+            try:
+                g.integrate(make_function(lin, 1), lv, start, end)
+                got = np.array(interp(offpts), dtype=float)[:, 0]
+                want = np.array([lin(y)[0] for y in offpts])
+                lsc = max(1.0, float(np.max(np.abs(want))))
+                good = bool(np.max(np.abs(got - want)) <= 1e-8 * relax * lsc)
+                if case["p"] in (1, 3):
+                    ctx.count("modified_linear_checked")
+                    if not good:
+                        k = int(np.argmax(np.abs(got - want)))
+                        ctx.violation("modified-linear-reproduction", dict(tags), case,
+                                      {"point": offpts[k], "expected": float(want[k]), "interpolated": float(got[k]),
+                                       "function": {"c0": c0, "c": cs}})
+                        ok = False
+                else:
+                    ctx.count("modified_p_ge5_linear_reproduced" if good else "modified_p_ge5_linear_not_reproduced")
+            except Exception as e:
+                ctx.violation("modified-linear-reproduction", dict(tags, kind="exception"), case, {"exception": exc_kind(e), "message": str(e)[:200]})
+                ok = False
     # ---- interpolate_grid (tensor-grid variant inside the anchored lines)
     if case.get("check_interpolate_grid") and n_nodes:
         try:
@@ -763,24 +928,65 @@ def run(ctx):
     drv = ctx.driver("drv_c10")
     r = ctx.rng
     run_malformed(ctx, drv)
-    budget = 75 if not thorough else 540
+    # the time budget is counted from HERE (the Lean build / audit before it may take long after a fresh restore and
+    # must not eat the exploration); a minimum number of cases is run regardless of the time
+    import signal
+    import time
+    t_run = time.time()
+    left = lambda b: b - (time.time() - t_run)
+    budget = 70 if not thorough else 530
     n_basis = 120 if not thorough else 700
-    n_grid = 10 ** 6
-    k = 0
+    min_basis = 120
+    min_grid = 150 if not thorough else 500
+    case_limit = 120          # seconds for ONE case; a slower case is reported, never silently absorbed
+    state = {"drv": drv}
+
+    class CaseTimeout(Exception):
+        pass
+
+    def on_alarm(signum, frame):
+        raise CaseTimeout()
+
+    def guarded(case):
+        t0 = time.time()
+        old_handler = signal.signal(signal.SIGALRM, on_alarm)
+        signal.setitimer(signal.ITIMER_REAL, case_limit)
+        try:
+            return run_case(ctx, state["drv"], case)
+        except CaseTimeout:
+            ctx.corr_break("C10/case-time-limit", case, {"limit_s": case_limit})
+            state["drv"] = ctx.driver("drv_c10")     # the old connection may be in the middle of an answer
+            return False
+        finally:
+            signal.setitimer(signal.ITIMER_REAL, 0)
+            signal.signal(signal.SIGALRM, old_handler)
+            dt = time.time() - t0
+            if dt > 10:
+                ctx.count("case_slower_than_10s")
+            ctx.extra["slowest_case_s"] = round(max(ctx.extra.get("slowest_case_s", 0.0), dt), 2)
+
+    nb = ng = 0
     for i in range(n_basis):
         case = gen_basis_case(r)
-        ok = run_case(ctx, drv, case)
+        guarded(case)
+        nb += 1
         ctx.case(canon(case), nontrivial=len(case["knots"]) >= 2, sample=case if i < 1 else None)
-        if ctx.time_left(budget * 0.35) < 0:
+        if nb >= min_basis and left(budget * 0.35) < 0:
             break
-    while k < n_grid and ctx.time_left(budget) > 0:
-        case = gen_local_case(r, thorough) if k % 2 == 0 else gen_global_case(r, thorough)
-        ok = run_case(ctx, drv, case)
+    stopped_early = False
+    while ng < min_grid or left(budget) > 0:
+        case = gen_local_case(r, thorough) if ng % 2 == 0 else gen_global_case(r, thorough)
+        guarded(case)
         small = {kk: (vv if kk not in ("points", "levels") else [len(x) for x in vv]) for kk, vv in case.items()}
-        ctx.case(canon(case), nontrivial=True, sample=small if k < 3 else None)
-        k += 1
+        ctx.case(canon(case), nontrivial=True, sample=small if ng < 3 else None)
+        ng += 1
         if (len(ctx.violations) + len(ctx.corr_breaks)) >= 40:
+            stopped_early = True
             break
+    ctx.extra["basis_cases"] = nb
+    ctx.extra["grid_cases"] = ng
+    if not stopped_early and (nb < min_basis or ng < min_grid):
+        ctx.corr_break("C10/exploration-too-small", {"kind": "malformed"}, {"basis_cases": nb, "grid_cases": ng})
 
 
 def replay(ctx, rp):
